@@ -1,7 +1,10 @@
 package main
 
 import (
+	"bytes"
 	"fmt"
+	"os"
+	"path/filepath"
 	"strings"
 
 	"github.com/parsyl/parquet/verifkit/shapes"
@@ -185,6 +188,25 @@ func customC14(r *Run) ([]Crash, error) {
 			}
 			crashes = append(crashes, r.runShards(bin, n, r.timeout(), nil, nil)...)
 		}
+		// the same inputs through ONE generator process
+		differ, compared, berr := r.batchGenerate(srcs)
+		if berr != nil {
+			r.M.Inconclusive = append(r.M.Inconclusive, "in-process generation helper: "+berr.Error())
+		}
+		r.M.Counters["in_process_generations_compared"] += int64(compared)
+		for _, s := range srcs {
+			msg, bad := differ[s.Name]
+			if !bad {
+				continue
+			}
+			bsig, what := s.Sig, "base"
+			if s.Meta["role"] != "base" {
+				bsig = r.Srcs[s.Meta["base"]].Sig
+				what = s.Meta["kind"] + "=" + s.Meta["decor"]
+			}
+			r.M.Violations = append(r.M.Violations, Violation{Prop: r.Prop, Key: fmt.Sprintf("base=%s;%s;kind=generator_output_depends_on_earlier_calls", bsig, what),
+				Case: s.Name, Shape: s.Name, Detail: fmt.Sprintf("struct definition %s (%s of base %s), generated after %d other definitions in one process through gen.FromStruct: %s\n%s", s.Name, what, bsig, len(srcs), msg, s.Code)})
+		}
 		r.log("chunk %d: %d programs, %d build-side failures", ci, len(srcs), len(outs))
 		r.removeShapes(srcs, ci)
 	}
@@ -194,4 +216,122 @@ func customC14(r *Run) ([]Crash, error) {
 	}
 	r.M.Counters["disagreements_checked"] = int64(len(distinctShapes(r.M.Violations)))
 	return crashes, nil
+}
+
+const genManySrc = `package main
+
+// genmany: generates code for many struct definitions in ONE process, in the
+// given order, through the generator's exported entry point.
+import (
+	"bufio"
+	"fmt"
+	"os"
+	"strings"
+
+	"github.com/parsyl/parquet/cmd/parquetgen/gen"
+)
+
+func one(dir, typ, pkg, out string) (msg string) {
+	defer func() {
+		if e := recover(); e != nil {
+			msg = fmt.Sprintf("panic: %v", e)
+		}
+	}()
+	if err := os.Chdir(dir); err != nil {
+		return err.Error()
+	}
+	if err := gen.FromStruct("types.go", out, typ, pkg, "", true); err != nil {
+		return "error: " + err.Error()
+	}
+	return ""
+}
+
+func main() {
+	f, err := os.Open(os.Args[1])
+	if err != nil {
+		fmt.Println(err)
+		os.Exit(2)
+	}
+	sc := bufio.NewScanner(f)
+	for sc.Scan() {
+		p := strings.Split(sc.Text(), "\t")
+		if len(p) != 4 {
+			continue
+		}
+		msg := one(p[0], p[1], p[2], p[3])
+		fmt.Printf("DONE\t%s\t%s\n", p[0], msg)
+	}
+}
+`
+
+// batchGenerate runs the generator on every source of the chunk that was
+// generated successfully by its own parquetgen process, this time in ONE
+// process and in order (the sources of a chunk reuse the type names T, G1,
+// E1 … with different definitions), and returns the names whose output
+// differs from what the separate process produced.
+func (r *Run) batchGenerate(srcs []shapes.Src) (differ map[string]string, compared int, err error) {
+	differ = map[string]string{}
+	dir := filepath.Join(r.Work, "cmd", "genmany")
+	tool := filepath.Join(r.Work, "bin", "genmany")
+	if _, e := os.Stat(tool); e != nil {
+		if err := os.MkdirAll(dir, 0o755); err != nil {
+			return nil, 0, err
+		}
+		if err := os.WriteFile(filepath.Join(dir, "main.go"), []byte(genManySrc), 0o644); err != nil {
+			return nil, 0, err
+		}
+		if _, err := r.buildTool("genmany", "github.com/parsyl/parquet/verifwork/cmd/genmany"); err != nil {
+			return nil, 0, err
+		}
+	}
+	var list strings.Builder
+	var names []string
+	for _, s := range srcs {
+		d := filepath.Join(r.Work, s.Name)
+		if _, e := os.Stat(filepath.Join(d, "parquet.go")); e != nil {
+			continue
+		}
+		fmt.Fprintf(&list, "%s\t%s\t%s\t%s\n", d, s.Type, s.Name, "parquet.batch.txt")
+		names = append(names, s.Name)
+	}
+	lf := filepath.Join(r.Work, "genmany.list")
+	if err := os.WriteFile(lf, []byte(list.String()), 0o644); err != nil {
+		return nil, 0, err
+	}
+	out, _ := r.cmd(r.Work, nil, "timeout", "-s", "KILL", "600", tool, lf)
+	done := map[string]string{}
+	for _, l := range strings.Split(string(out), "\n") {
+		p := strings.SplitN(l, "\t", 3)
+		if len(p) == 3 && p[0] == "DONE" {
+			done[filepath.Base(p[1])] = p[2]
+		}
+	}
+	for _, n := range names {
+		msg, ok := done[n]
+		if !ok {
+			continue // the helper died (log.Fatal inside the generator): not compared
+		}
+		compared++
+		d := filepath.Join(r.Work, n)
+		a, _ := os.ReadFile(filepath.Join(d, "parquet.go"))
+		b, _ := os.ReadFile(filepath.Join(d, "parquet.batch.txt"))
+		os.Remove(filepath.Join(d, "parquet.batch.txt"))
+		switch {
+		case msg != "":
+			differ[n] = "generation in its own process succeeded, the same call after earlier calls in one process failed: " + msg
+		case !bytes.Equal(a, b):
+			differ[n] = fmt.Sprintf("the generated code differs from what a separate parquetgen process produces for the same input (%d vs %d bytes): %s", len(b), len(a), firstDiffLine(a, b))
+		}
+	}
+	return differ, compared, nil
+}
+
+func firstDiffLine(a, b []byte) string {
+	la, lb := strings.Split(string(a), "\n"), strings.Split(string(b), "\n")
+	for i := 0; i < len(la) && i < len(lb); i++ {
+		if la[i] != lb[i] {
+			return fmt.Sprintf("line %d: separate %q, in-process %q", i+1, la[i], lb[i])
+		}
+	}
+	return fmt.Sprintf("%d vs %d lines", len(la), len(lb))
 }
